@@ -26,7 +26,7 @@ from .C15 import apply_model_ramp, defgrad
 PROP = "C01"
 
 EVIDENCE = {
-    "probes_expected": ["fd-probe", "fd-probe-smooth", "kink-discarded", "settled-incompressible-checked", "symmetry-checked", "cache-transparency-checked", "call-order-checked", "repeated-evaluation-checked", "parallel-knob-checked", "item:MultiPointContact", "item:MultiPointConstraint", "item:SolidBodyPressure", "item:SolidBodyCauchyStress", "item:FormItem", "item:SolidBodyNearlyIncompressible", "history-state-probe"],
+    "probes_expected": ["fd-probe", "fd-probe-smooth", "kink-discarded", "settled-incompressible-checked", "symmetry-checked", "cache-transparency-checked", "call-order-checked", "repeated-evaluation-checked", "parallel-knob-checked", "item:MultiPointContact", "item:MultiPointConstraint", "item:SolidBodyPressure", "item:SolidBodyCauchyStress", "item:FormItem", "item:SolidBodyNearlyIncompressible", "history-state-probe", "umat-kwargs-checked"],
     "clauses_sampled_only": ["for stateless items the derivative check at a given state is a pure function of that state; only the states (and the cache / link / multiplier protocol through which K and f reach Newton) are history-generated"],
 }
 
@@ -335,6 +335,60 @@ class C01Monitor(jobsim.Monitor):
         self.nprobe += 1
 
 
+class _ScaledNeoHooke(fem.NeoHooke):
+    """A material with an optional call-time keyword argument in gradient() and hessian()."""
+
+    def gradient(self, x, out=None, scale=1.0):
+        res = super().gradient(x, out=out)
+        res[0] = np.multiply(res[0], scale, out=res[0])
+        return res
+
+    def hessian(self, x, out=None, scale=1.0):
+        res = super().hessian(x, out=out)
+        res[0] = np.multiply(res[0], scale, out=res[0])
+        return res
+
+
+def kwargs_check(doc, log):
+    """Call-time keyword arguments of the material handed over through assemble.vector / matrix
+    (kwargs={...}) reach both: the matrix is the derivative of the vector for the same kwargs."""
+    if doc["field"]["kind"] not in ("Field", "PlaneStrain", "Axi"):
+        return
+    w = world.World({"mesh": doc["mesh"], "field": doc["field"], "items": [], "steps": []})
+    rng = np.random.default_rng(doc["c01"]["probe_seed"])
+    f0 = w.field[0]
+    base = 0.02 * rng.normal(size=f0.values.shape) * float(np.max(doc["mesh"]["b"])) / max(doc["mesh"]["n"])
+    if doc["field"]["kind"] == "Axi":
+        base[np.abs(w.mesh.points[:, 1]) < 1e-12, 1] = 0.0
+    for name in ("SolidBody", "SolidBodyNearlyIncompressible"):
+        scale = float(rng.choice([0.5, 2.5]))
+        for kw in ({}, {"scale": scale}):
+            if name == "SolidBody":
+                body = fem.SolidBody(_ScaledNeoHooke(mu=1.0, bulk=5.0), w.field)
+            else:
+                body = fem.SolidBodyNearlyIncompressible(_ScaledNeoHooke(mu=1.0), w.field, bulk=50.0)
+
+            def R(u):
+                w.set_values([u])
+                body.assemble.vector(w.field, kwargs=kw)
+                return body.assemble.vector(w.field, kwargs=kw).toarray().ravel()  # (condensed state settled)
+
+            r0 = R(base)
+            K = body.assemble.matrix(w.field, kwargs=kw).toarray()
+            d = rng.normal(size=base.shape)
+            if doc["field"]["kind"] == "Axi":
+                d[np.abs(w.mesh.points[:, 1]) < 1e-12, 1] = 0.0
+            d /= np.abs(d).max()
+            h = 1e-6
+            g = (R(base + h * d) - R(base - h * d)) / (2 * h)
+            Kd = K @ d.ravel()
+            err = float(np.abs(Kd - g).max())
+            sc = float(np.abs(Kd).max() + np.abs(g).max()) + 1e-300
+            if not np.isfinite(err) or err > 2e-5 * sc:
+                raise Violation(PROP, "fd-tangent", f"{name}: matrix assembled with kwargs={kw} differs from the central difference of the vector assembled with the same kwargs by {err:.3e} (scale {sc:.3e})", site=f"{name}.assemble(kwargs)")
+            log.count("umat-kwargs-checked")
+
+
 def run(doc, log):
     dd = copy.deepcopy(doc)
     holder = {}
@@ -352,6 +406,8 @@ def run(doc, log):
         raise Violation(PROP, "fd-tangent", f"undocumented exception {type(exc).__name__}: {exc}", site="job.exc")
     fired = [f["kind"] for f in eng.fired]
     nconv = len(eng.callbacks)
+    if doc["seed"] % 5 == 0:
+        kwargs_check(doc, log)
     sig = "|".join(
         [
             doc["mesh"]["gen"] + str(doc["mesh"].get("convert")),
